@@ -26,7 +26,23 @@ def carrier_ty(P):
     return "rt::Opt" if P["carrier"] == "opt" else "rt::Res"
 
 
+BOUNDS = False      # C19 bounds mode: non-Send tokens (rt feature `nosend`), closures borrow a caller-stack Cell
+TICK = "__c.set(__c.get() + 1); "
+
+
+def tick(c):
+    """`|args| body` -> `|args| { tick; body }` in bounds mode"""
+    if not BOUNDS:
+        return c
+    k = c.index("|", c.index("|") + 1) if not c.startswith("||") else 1
+    return c[:k + 1] + " { " + TICK + c[k + 1:].strip() + " }"
+
+
 def closure(P, it, b):
+    return tick(closure0(P, it, b))
+
+
+def closure0(P, it, b):
     """the callback closure for an item (without operand-evaluation wrapper)"""
     op, i = it["op"], it["id"]
     a = P["kind"]["async"]
@@ -151,7 +167,7 @@ def handler_src(P):
             body = f"rt::ho(&mut [{arr}])" if opt else f"rt::hr(&mut [{arr}])"
     else:
         body = f"rt::aht({hid}, &mut [{arr}])" if a else f"rt::h(&mut [{arr}])"
-    c = f"|{params}| {body}"
+    c = tick(f"|{params}| {body}")
     if P.get("hform", "closure") == "call":
         c = f"({{ rt::hx(); {c} }})"
     return f"{h} => {c}"
@@ -212,10 +228,17 @@ def program_fn(name, P):
     inp = macro_input(P)
     cf = canon_fn(P)
     a, sp = P["kind"]["async"], P["kind"]["spawn"]
+    cell = "    let __cell = std::cell::Cell::new(0i64);\n    let __c = &__cell;\n" if BOUNDS else ""
     if not a:
         return (f"#[allow(unused_mut, unused_variables, unused_parens, unused_braces)]\n"
-                f"pub fn {name}() -> Value {{\n    let r = {m}! {{\n        {inp}\n    }};\n    {cf}(r)\n}}\n")
+                f"pub fn {name}() -> Value {{\n{cell}    let r = {m}! {{\n        {inp}\n    }};\n    {cf}(r)\n}}\n")
     ty = "rt::BoxFut" if sp else "rt::LocalBoxFut"
+    if BOUNDS:
+        # the macro's future borrows `__cell`, which lives in the surrounding future: not 'static, not Send
+        assert not sp
+        return (f"#[allow(unused_mut, unused_variables, unused_parens, unused_braces)]\n"
+                f"pub fn {name}() -> {ty} {{\n    Box::pin(async move {{\n{cell}    let fut = {m}! {{\n        {inp}\n    }};\n"
+                f"    let r = fut.await; {cf}(r) }})\n}}\n")
     return (f"#[allow(unused_mut, unused_variables, unused_parens, unused_braces)]\n"
             f"pub fn {name}() -> {ty} {{\n    let fut = {m}! {{\n        {inp}\n    }};\n"
             f"    Box::pin(async move {{ let r = fut.await; {cf}(r) }})\n}}\n")
@@ -238,7 +261,7 @@ path = "src/main.rs"
 
 [dependencies]
 join = {{ path = "{repo}/join" }}
-rt = {{ path = "{verif}/harness/rt" }}
+rt = {{ path = "{verif}/harness/rt"{rtfeat} }}
 serde_json = "1.0"
 futures = "0.3.0"
 tokio = {{ version = "1.0.1", features = ["full"] }}
@@ -270,7 +293,7 @@ def write_workspace(ws_dir, crates):
         d = os.path.join(ws_dir, cname, "src")
         os.makedirs(d)
         with open(os.path.join(ws_dir, cname, "Cargo.toml"), "w") as f:
-            f.write(CARGO_TOML.format(name=cname, repo=REPO, verif=VERIF))
+            f.write(CARGO_TOML.format(name=cname, repo=REPO, verif=VERIF, rtfeat=', features = ["nosend"]' if BOUNDS else ""))
         lines = ["#![allow(clippy::all)]", '#![recursion_limit = "1024"]', "#[allow(unused_imports)]", "use join::*;",
                  "#[allow(unused_imports)]", "use rt::Dot;", "use serde_json::Value;", ""]
         sp = {}
